@@ -140,6 +140,17 @@ theorem refusal_reasons (s : St) (m : Msg) (e : Err) (h : preCheck s m = .error 
 
 /-! ## Part 3 — applied ⇒ next nonce, funds, nonce + 1, exact charge, gas bounds -/
 
+/-- (also stated as `replay_refused` in Part 5) -/
+theorem replay_refused_aux (E : Env) (s : St) (acc : Acc) (m : Msg) (h : m.f.nonce < (s.world.get m.sender).nonce) :
+    (applyMsg E s acc m).out = .error .nonceTooLow ∧ (applyMsg E s acc m).st = s ∧ (applyMsg E s acc m).acc = acc := by
+  have hp : preCheck s m = .error .nonceTooLow := by
+    unfold preCheck
+    simp only
+    have : ¬ (s.world.get m.sender).nonce < m.f.nonce := by omega
+    simp [this, h]
+  unfold applyMsg applyMessageEntry applyMessageEntryWith
+  simp [hp]
+
 /-- An applied transfer / contract call / creation (`rc` is its receipt), for every state and every EVM that
 respects `EvmSpec`: it carried the account's next nonce, the balance covered gas limit × price, the pool covered
 the gas limit; afterwards the nonce is one higher, gas used is between the intrinsic cost and the limit, the
@@ -164,8 +175,63 @@ theorem applied_accounting {E : Env} {s : St} {acc : Acc} {m : Msg} {rc : Receip
       (applyMsg E s acc m).st.refund = 0 ∧
       (applyMsg E s acc m).acc.used = (acc.used + rc.gasUsed) % U64 ∧
       (applyMsg E s acc m).acc.rewards = acc.rewards + ((m.f.price * rc.gasUsed : Nat) : Int) ∧
-      rc.cumulative = (applyMsg E s acc m).acc.used :=
+      rc.cumulative = (applyMsg E s acc m).acc.used ∧
+      rc.gasUsed = m.f.gasLimit - (E.evm m (callWorld m (worldAfterBuy s m)) s.refund (m.f.gasLimit - ig)).gasLeft ∧
+      rc.failed = ((E.evm m (callWorld m (worldAfterBuy s m)) s.refund (m.f.gasLimit - ig)).vmerr != .none) ∧
+      (E.evm m (callWorld m (worldAfterBuy s m)) s.refund (m.f.gasLimit - ig)).vmerr ≠ .insufficientBalance :=
   applied_evm hE hns hto hlim hpool hnonce h
+
+/-- A contract-creation transaction whose derived address is already occupied (`ErrContractAddressCollision`: the
+hypothesis `hcol` says that, unless the value is unaffordable, the EVM reports a failure with no gas left and an untouched
+refund counter — `evmCosting_collision` shows the model's EVM summaries do exactly that when the address has a nonce
+or code): it is APPLIED with a failed receipt, all its gas is charged, nothing else moves — and the sender's nonce IS raised
+by one (the code bumps it before the collision check), so the same transaction cannot be applied again (`replay_refused`). -/
+theorem creation_collision_applied_nonce_raised {E : Env} {s : St} {acc : Acc} {m : Msg} {rc : Receipt}
+    (hE : EvmSpec E.evm m) (hns : E.isStaking m = false) (hcreate : m.f.to = none)
+    (hlim : m.f.gasLimit < U64) (hpool : s.pool < U64) (hnonce : m.f.nonce + 1 < U64) (hr0 : s.refund = 0)
+    (hcol : ∀ g, (E.evm m (worldAfterBuy s m) s.refund g).vmerr ≠ .insufficientBalance →
+      (E.evm m (worldAfterBuy s m) s.refund g).vmerr = .other ∧ (E.evm m (worldAfterBuy s m) s.refund g).gasLeft = 0 ∧
+      (E.evm m (worldAfterBuy s m) s.refund g).refund = s.refund)
+    (h : (applyMsg E s acc m).out = .ok rc) :
+    rc.failed = true ∧ rc.gasUsed = m.f.gasLimit ∧
+    ((applyMsg E s acc m).st.world.get m.sender).nonce = m.f.nonce + 1 ∧
+    ((applyMsg E s acc m).st.world.get m.sender).balance =
+      (s.world.get m.sender).balance - ((m.f.gasLimit * m.f.price : Nat) : Int) ∧
+    (applyMsg E s acc m).st.pool = s.pool - m.f.gasLimit ∧
+    (applyMsg (E := E) (applyMsg E s acc m).st (applyMsg E s acc m).acc m).out = .error .nonceTooLow := by
+  have hto : m.f.to ≠ some m.sender := by rw [hcreate]; simp
+  obtain ⟨ig, refund, _, _, _, _, _, _, hr, hn1, hb, hp, _, _, _, _, hg, hf, hv⟩ :=
+    applied_evm hE hns hto hlim hpool hnonce h
+  have hcw : callWorld m (worldAfterBuy s m) = worldAfterBuy s m := by unfold callWorld; simp [hcreate]
+  rw [hcw] at hr hg hf hv
+  obtain ⟨c1, c2, c3⟩ := hcol _ hv
+  rw [c2] at hg
+  rw [c1] at hf
+  rw [c3, hr0, Nat.min_zero] at hr
+  subst hr
+  have hgl : rc.gasUsed = m.f.gasLimit := by omega
+  rw [hgl] at hb hp
+  have hfail : rc.failed = true := by rw [hf]; decide
+  simp only [hfail, if_true, Nat.sub_zero] at hb
+  refine ⟨hfail, hgl, hn1, by omega, by omega, ?_⟩
+  exact (replay_refused_aux E _ _ m (by rw [hn1]; omega)).1
+
+/-- the model's EVM summaries raise exactly this collision outcome when the derived address has a nonce or code -/
+theorem evmCosting_collision (dest : Addr) (cost refundAdd : Nat) (s : St) (m : Msg) (hcreate : m.f.to = none)
+    (hd : dest ≠ m.sender) (hocc : occupied s.world dest = true) :
+    ∀ g, (evmCosting dest cost refundAdd m (worldAfterBuy s m) s.refund g).vmerr ≠ .insufficientBalance →
+      (evmCosting dest cost refundAdd m (worldAfterBuy s m) s.refund g).vmerr = .other ∧
+      (evmCosting dest cost refundAdd m (worldAfterBuy s m) s.refund g).gasLeft = 0 ∧
+      (evmCosting dest cost refundAdd m (worldAfterBuy s m) s.refund g).refund = s.refund := by
+  intro g
+  have hget : (bumpIfCreate m (worldAfterBuy s m)).get dest = s.world.get dest := by
+    rw [bump_get_other _ _ hd]; unfold worldAfterBuy; exact get_addBal_other _ _ hd
+  have hocc' : occupied (bumpIfCreate m (worldAfterBuy s m)) dest = true := by
+    unfold occupied at hocc ⊢; rw [hget]; exact hocc
+  unfold evmCosting collisionOut
+  by_cases hb : ((worldAfterBuy s m).get m.sender).balance < (m.f.value : Int)
+  · simp [hb]
+  · simp [hb, hcreate, hocc']
 
 /-- "Charged exactly" as the property states it (balance drops by value + gasUsed × price, pool by gasUsed), for
 every applied EVM message: FALSE of the code that exists — see `charged_exactly_counterexample`. -/
@@ -315,14 +381,8 @@ theorem worker_pool_leak_example :
 /-- A transaction whose nonce is below the account's nonce (e.g. one that has been applied) is refused and changes
 nothing. -/
 theorem replay_refused (E : Env) (s : St) (acc : Acc) (m : Msg) (h : m.f.nonce < (s.world.get m.sender).nonce) :
-    (applyMsg E s acc m).out = .error .nonceTooLow ∧ (applyMsg E s acc m).st = s ∧ (applyMsg E s acc m).acc = acc := by
-  have hp : preCheck s m = .error .nonceTooLow := by
-    unfold preCheck
-    simp only
-    have : ¬ (s.world.get m.sender).nonce < m.f.nonce := by omega
-    simp [this, h]
-  unfold applyMsg applyMessageEntry applyMessageEntryWith
-  simp [hp]
+    (applyMsg E s acc m).out = .error .nonceTooLow ∧ (applyMsg E s acc m).st = s ∧ (applyMsg E s acc m).acc = acc :=
+  replay_refused_aux E s acc m h
 
 /-- For every sequence of candidate messages the worker tries within one block gas pool (failed ones skipped, their
 state changes reverted), every EVM / handler respecting their contracts: the pool never grows; no account's nonce
@@ -358,6 +418,15 @@ example : ({ nonce := 7, price := 1000, gasLimit := 21000, to := none, value := 
   intro a h; simp at h
 /-- the applied case of `applied_accounting` is reachable: the witness message is applied with receipt gas 26006 (test) -/
 example : (applyMsg cexEnv cexState {} cexMsg).out = .ok { failed := false, cumulative := 26006, gasUsed := 26006 } := by decide
+/-- creation onto an occupied address (test on literals; the Go witness is corpus/C17/creation-collision.replay): applied,
+failed, all 100000 gas charged, nonce 0 → 1 -/
+example :
+    let s : St := { world := ⟨[([1], { nonce := 0, balance := 1000000000000000000 }), ([7], { nonce := 1 })]⟩, pool := 8000000 }
+    let E : Env := { stakingAddr := [9], version := 5, evm := evmCosting [7] 0 0, handler := handlerObserved false 0 }
+    let m : Msg := { sender := [1], f := { nonce := 0, price := 1000, gasLimit := 100000, to := none, value := 5, data := [] } }
+    (applyMsg E s {} m).out = .ok { failed := true, cumulative := 100000, gasUsed := 100000 } ∧
+    ((applyMsg E s {} m).st.world.get [1]).nonce = 1 ∧
+    ((applyMsg E s {} m).st.world.get [1]).balance = 1000000000000000000 - 100000 * 1000 := by decide
 /-- the model's sender check accepts V = 2·99 + 35 with in-range R, S (test) -/
 example : senderCheck 99 { f := cexMsg.f, v := 233, r := 1, s := 1 } = .ok 0 := by decide
 /-- and rejects the high-s value N − 1 (test) -/
